@@ -51,7 +51,7 @@ package file
 //@   ensures [rejected] result.1 != nil ==> result.0 == nil
 //@
 //@ func (*Stage).validateGaussianStage
-//@   props C14 C15 C13
+//@   props C14 C15 C13 C11
 //@   requires s != nil && defaults.Jitter != nil
 //@   modifies s.Volume, s.Repeat, s.IterationFrequency, s.Peak, s.Weights, s.StandardDeviation, s.Distribution, s.Jitter, s.Parameters
 //@   ensures [usable] result.1 == nil ==> result.0 == s && s.Volume != nil && s.Repeat != nil && s.IterationFrequency != nil && s.Peak != nil && s.Weights != nil &&
